@@ -90,6 +90,108 @@ def create_dummies(n, seed):
     return keep
 
 
+def core_warmup():
+    """Pre-history that exercises the library's CORE HELPERS (not only object creation): every public function of
+    symplyphysics.core.{geometry,fields,vectors,coordinate_systems,points} is called on fresh instances of each kind of
+    coordinate system, with arguments chosen from its annotations / parameter names; methods of Vector / ScalarField /
+    VectorField as well.  Process-wide state a helper keeps (memo tables keyed by kind, registries, defaults) is thereby
+    populated by SOMEBODY ELSE before the catalogue module under observation is imported.  Returns (calls made, calls that returned)."""
+    import pkgutil
+    import sympy
+    from sympy import cos, sin, pi
+    from sympy.geometry import Point2D
+    from symplyphysics import CoordinateSystem, Vector
+    from symplyphysics.core.fields.scalar_field import ScalarField
+    from symplyphysics.core.fields.vector_field import VectorField
+    t, u, v = sympy.symbols("t u v")
+    made = ok = 0
+
+    def values(cs):
+        sc = list(cs.coord_system.base_scalars())
+        vec = Vector([sc[0], sc[0] * sc[1], sc[2]], cs)
+        return {
+            "coordinate_system": cs, "from_system": cs, "self": cs, "coord_system_type": cs.coord_system_type,
+            "trajectory": [cos(t), sin(t), t], "surface": [u, v, u + v],
+            "parameter": t, "parameter1": u, "parameter2": v, "x": t,
+            "parameter_limits": (t, 0, 1), "parameter_and_limits1": (u, 0, 1), "parameter_and_limits2": (v, 0, 1),
+            "x_limits": (0, 1), "y_limits": (0, 1), "z_limits": (0, 1),
+            "p1": Point2D(0, 1), "p2": Point2D(1, 3), "scalar_value": 2, "angle": pi / 3, "axis": cs.coord_system.k,
+            "vector_": vec, "vector": vec, "vector_left": vec, "vector_right": Vector([sc[2], 1, sc[0]], cs),
+            "original_vector_": vec, "target_vector_": Vector([1, sc[1], 0], cs), "vectors": None, "args": None,
+            "field": None,
+        }
+
+    def call(f, kw, star=()):
+        nonlocal made, ok
+        made += 1
+        try:
+            with _time_limit(2):
+                f(*star, **kw)
+            ok += 1
+        except BaseException:  # pylint: disable=broad-except
+            pass
+
+    import symplyphysics.core as core_pkg
+    mods = []
+    for pk in ("geometry", "fields", "vectors", "coordinate_systems", "points"):
+        try:
+            pkg = importlib.import_module(f"symplyphysics.core.{pk}")
+            for info in pkgutil.iter_modules(pkg.__path__, pkg.__name__ + "."):
+                mods.append(importlib.import_module(info.name))
+        except Exception:  # pylint: disable=broad-except
+            continue
+    _ = core_pkg
+    for kind in list(CoordinateSystem.System):
+        for _round in range(2):                   # two instances per kind: the second caller is the one stale state hurts
+            cs = CoordinateSystem(kind)
+            val = values(cs)
+            sfield = ScalarField(lambda p: p.coordinate(0) * p.coordinate(1) + p.coordinate(2), cs)
+            vfield = VectorField(lambda p: [p.coordinate(0), p.coordinate(0) * p.coordinate(1), p.coordinate(2)], cs)
+            for m in mods:
+                for name, f in list(vars(m).items()):
+                    if name.startswith("_") or not inspect.isfunction(f) or f.__module__ != m.__name__:
+                        continue
+                    try:
+                        sig = inspect.signature(f)
+                    except (TypeError, ValueError):
+                        continue
+                    kw, star, usable = {}, (), True
+                    for pn, par in sig.parameters.items():
+                        ann = str(par.annotation)
+                        if par.kind == par.VAR_POSITIONAL:
+                            star = (val["vector_"], val["vector_right"]) if "Vector" in ann and pn == "vectors" else ()
+                            continue
+                        if par.kind == par.VAR_KEYWORD:
+                            continue
+                        if pn == "field":
+                            kw[pn] = sfield if "ScalarField" in ann else vfield
+                        elif pn in val and val[pn] is not None:
+                            kw[pn] = val[pn]
+                        elif "trajectory" in pn or "surface" in pn:
+                            kw[pn] = Vector(val["trajectory" if "trajectory" in pn else "surface"], cs)
+                        elif par.default is not par.empty:
+                            continue
+                        else:
+                            usable = False
+                    if "Vector" in str(sig.parameters.get("trajectory", sig.parameters.get("surface", None)).annotation
+                            if ("trajectory" in sig.parameters or "surface" in sig.parameters) else ""):
+                        for pn in ("trajectory", "surface"):
+                            if pn in kw:
+                                kw[pn] = Vector(val[pn], cs)
+                    if usable:
+                        call(f, kw, star)
+            # methods of the wrapper classes
+            other = CoordinateSystem(CoordinateSystem.System.CARTESIAN)
+            vec = val["vector_"]
+            for f, kw in ((vec.rebase, {"coordinate_system": other}), (vec.to_sympy_vector, {}), (vec.simplify, {}),
+                          (sfield.apply_to_basis, {}), (vfield.apply_to_basis, {}), (vfield.to_sympy_vector, {}),
+                          (lambda: ScalarField.from_expression(val["vector_"].components[1], cs), {}),
+                          (lambda: VectorField.from_vector(vec), {}),
+                          (lambda: cs.transformation_to_system(CoordinateSystem.System.CARTESIAN), {})):
+                call(f, kw)
+    return made, ok
+
+
 # ---------------------------------------------------------------------------------------------------
 # canonical text
 # ---------------------------------------------------------------------------------------------------
@@ -586,6 +688,8 @@ def main():
     if spec["mode"] == "perm":
         if spec.get("dummies"):
             create_dummies(spec["dummies"], spec.get("argseed", 0))
+        if spec.get("warmup"):
+            out["core_warmup_calls"] = core_warmup()
         raise_counters(spec.get("counters"))
         out["ids_before_catalogue"] = dict(g._ids)  # pylint: disable=protected-access
         for name in spec["modules"]:
